@@ -181,6 +181,11 @@ def run(ck):
                 mn = tcommon.min_eig(outw["default"][1]) / scale
                 docw = {"crystal": nm, "cutoff": cut, "fast_class": k0, "thermo": {k: np.asarray(v).tolist() for k, v in t.items()},
                         "standard": [x.tolist() for x in outw["standard"]], "large": [x.tolist() for x in outw["large"]], "default": [x.tolist() for x in outw["default"]]}
+                # Lsv / L1vv as well: the standard algorithm carries eps * 1e9 there too; the large algorithm must keep the slow
+                # exchange class (a pseudo-inverse cutoff relative to the FAST class would drop it)
+                esvw = max(np.abs(a - b).max() for a, b in zip(outw["standard"][2:], outw["large"][2:])) / scale
+                if esvw > 1e-13 * 1e9 * smax + 1e-9:
+                    ck.violation("exchange classes nine decades apart: Lsv/L1vv of the standard and large-omega2 algorithms differ by %.3g relative" % esvw, docw, key="c08-agree-classspread-LsvL1vv")
                 if ess > 1e-14 * 1e9 * smax + 1e-9:
                     ck.violation("exchange classes nine decades apart: Lss of the standard/default and large-omega2 algorithms differ by %.3g relative" % ess, docw, key="c08-agree-classspread")
                 if mn < -1e-6:
